@@ -318,9 +318,75 @@ def t_simultaneous_sample(T):
                 T.ob_path(eng, f"{key}#post.split-of-the-sample-gives-the-constituent-draws-back{sfx}", r, z3.And(*g2))
 
 
+# ---------------------------------------------------------------- pyhf's own distribution objects (numpy / jax): what is drawn
+def t_backend_samplers(T):
+    """numpy and jax have no library distribution objects: pyhf's _BasicPoisson / _BasicNormal draw through scipy.stats.  Their
+    sample(shape) is one draw of the library distribution WITH THE OBJECT'S OWN PARAMETERS (rate / loc, scale) and size
+    shape + parameter shape.  (pytorch / tensorflow hand out the library's distribution objects: C04 proves their parameters.)"""
+    from pyvc.values import HostObj, NativeFn
+    DRAW = lambda fam, n: z3.Function(f"draw_{fam}", *([Obj] * n), Obj)
+
+    class Frozen(HostObj):
+        def __init__(self, eng, family, params):
+            self.eng, self.family, self.params = eng, family, params
+
+        def rvs(self, size=None, random_state=None):
+            e = self.eng
+            return DRAW(self.family, len(self.params) + 1)(*[e.box(p) for p in self.params], e.box(size))
+
+    def frozen(family, names, defaults):
+        def h(eng, call):
+            import inspect
+            sig = inspect.Signature([inspect.Parameter(n, inspect.Parameter.POSITIONAL_OR_KEYWORD, default=d) for n, d in zip(names, defaults)])
+            b = sig.bind(*call.args, **call.kwargs)
+            b.apply_defaults()
+            return Frozen(eng, family, [b.arguments[n] for n in names])
+        return h
+    for fname in ("numpy_backend", "jax_backend"):
+        base = f"tensor/{fname}.py"
+        pol = {"inline": [f"{base}::"], "numbers_are_arrays": True,
+               "ext:scipy.stats.poisson": frozen("poisson", ["mu"], [None]), "ext:scipy.stats.norm": frozen("normal", ["loc", "scale"], [0, 1]),
+               "ext:jax.numpy.asarray": lambda e, c: c.args[0], "ext:numpy.asarray": lambda e, c: c.args[0]}
+        eng = T.engine(pol)
+        for m in ("_BasicPoisson.sample", "_BasicNormal.sample"):
+            T.under_contract(eng, f"{base}::{m}")
+        box = {}
+
+        def run():
+            mod = eng.module(base)
+            rate, loc, scale = eng.real("rate"), eng.real("loc"), eng.real("scale")
+            n = eng.int("ntoys")
+            eng.assume(z3.And(rate > 0, scale > 0, n >= 0))
+            box.update(rate=rate, loc=loc, scale=scale, n=n)
+            p = eng.instantiate(mod.get("_BasicPoisson"), [rate], {})
+            g = eng.instantiate(mod.get("_BasicNormal"), [loc, scale], {})
+            return {"p": eng.call(eng.getattr(p, "sample"), [(n,)], {}), "g": eng.call(eng.getattr(g, "sample"), [(n,)], {})}
+        try:
+            results = eng.explore(run)
+        except Unsupported as e:
+            T.undecided(f"{base}::_BasicNormal.sample#engine", str(e)) if hasattr(T, "undecided") else T.fail(f"{base}::_BasicNormal.sample#engine", str(e), kind="engine")
+            continue
+        T.absorb(eng, results)
+        for k, r in enumerate(results):
+            sfx = f"@path{k}" if len(results) > 1 else ""
+            if r.kind != "return":
+                T.fail(f"{base}::_BasicNormal.sample#no-raise{sfx}", str(r.exc_name), kind="raises", sampler=fname)
+                continue
+            rate, loc, scale, n = (box[v] for v in ("rate", "loc", "scale", "n"))
+            size = eng.box((n,))
+            T.ob_path(eng, f"{base}::_BasicPoisson.sample#post.one-poisson-draw-with-the-objects-rate-and-shape{sfx}", r,
+                      _zb(eng.veq(r.value["p"], DRAW("poisson", 2)(eng.box(rate), size))), kind="forwarding", sampler=fname)
+            T.ob_path(eng, f"{base}::_BasicNormal.sample#post.one-normal-draw-with-the-objects-loc-scale-and-shape{sfx}", r,
+                      _zb(eng.veq(r.value["g"], DRAW("normal", 3)(eng.box(loc), eng.box(scale), size))), kind="forwarding", sampler=fname)
+
+
+def _zb(x):
+    return z3.BoolVal(x) if isinstance(x, bool) else x
+
+
 def tasks(tier):
     return [("EmpiricalDistribution", t_empirical), ("ToyCalculator.distributions", t_distributions), ("ToyCalculator.pvalues", t_pvalues),
-            ("Simultaneous.sample", t_simultaneous_sample)]
+            ("Simultaneous.sample", t_simultaneous_sample), ("backend-samplers", t_backend_samplers)]
 
 
 def replay(r):
@@ -331,6 +397,31 @@ def replay(r):
     from pyhf.infer.calculators import EmpiricalDistribution, ToyCalculator
     pyhf.set_backend("numpy")
     bad = {}
+    if "_Basic" in name and ".sample#" in name:
+        # moments of a large seeded draw from the real distribution objects of the backend the obligation is about
+        backend = "jax" if "jax_backend" in name else "numpy"
+        try:
+            pyhf.set_backend(backend)
+            tl, _ = pyhf.get_backend()
+            np.random.seed(12345)
+            n = 40000
+            rate, loc, scale = tl.astensor([4.0, 25.0]), tl.astensor([1.0, -3.0]), tl.astensor([0.05, 2.5])
+            ps = np.asarray(tl.tolist(tl.poisson_dist(rate).sample((n,))), dtype=float)
+            gs = np.asarray(tl.tolist(tl.normal_dist(loc, scale).sample((n,))), dtype=float)
+            if ps.shape != (n, 2) or gs.shape != (n, 2):
+                bad["shape"] = {"poisson": list(ps.shape), "normal": list(gs.shape), "expected": [n, 2]}
+            else:
+                for j, lam in enumerate((4.0, 25.0)):
+                    if abs(ps[:, j].mean() - lam) > 6 * (lam / n) ** 0.5 or abs(ps[:, j].var() - lam) > 0.1 * lam or not np.all(ps[:, j] == np.round(ps[:, j])):
+                        bad[f"poisson(rate={lam})"] = {"sample mean": float(ps[:, j].mean()), "sample variance": float(ps[:, j].var()), "expected": lam}
+                for j, (m, s_) in enumerate(((1.0, 0.05), (-3.0, 2.5))):
+                    if abs(gs[:, j].mean() - m) > 6 * s_ / n ** 0.5 or abs(gs[:, j].std() - s_) > 0.05 * s_:
+                        bad[f"normal(loc={m}, scale={s_})"] = {"sample mean": float(gs[:, j].mean()), "sample std": float(gs[:, j].std())}
+        except Exception as e:
+            bad["exception"] = f"{type(e).__name__}: {e}"
+        finally:
+            pyhf.set_backend("numpy")
+        return {"reproduced": bool(bad), "disagreements": bad}
     if "Simultaneous.sample" in name:
         from pyhf.probability import Simultaneous
         from pyhf.tensor.common import _TensorViewer
